@@ -25,7 +25,15 @@ RULE = ('datasets of every convention with holes, sheared lattices, concave / co
         'position of the face list) with the points that lie ON the boundary of one cell and strictly INSIDE another; '
         'the place on the globe (dataset translated in longitude: reaching beyond 180 E in the 0..360 spelling, wholly '
         'beyond it, around / beyond 180 W) with other spellings of a cell point (x + 360, x - 360, mirrored longitude, '
-        'latitude and longitude exchanged), which hit a cell only if a cell polygon really contains them. '
+        'latitude and longitude exchanged), which hit a cell only if a cell polygon really contains them; '
+        'points a hair (2^-30 / 2^-40 of a degree) off a vertex / an edge midpoint of two cells of every dataset, to '
+        'either side (just outside the hull, or strictly inside one cell beside an edge / vertex it shares): "contains '
+        'or touches" is exact, nearness does not count. Histories on one dataset object (10 per quick run, every '
+        'convention): a first convention is constructed on the object and asked two lookups, then a second instance '
+        'of the same class is constructed on the same object and examined with every point class - either the object '
+        'carries two grids under different names (CF 1-D / 2-D, latitude= / longitude= given), or its geometry '
+        'variables are overwritten in place (dataset translated) in between; the answer speaks of the examined '
+        "convention's own cells. "
         'All points have dyadic coordinates, so GEOS predicates are exact. '
         'Compared with the model: get_index_for_point (linear index, native index, polygon ring) where the model uses '
         'its own exact point-in-polygon test, and the sorted STRtree hit list vs the exact hit set. Oracle: brute '
@@ -77,9 +85,22 @@ def points_for(rng, kept, raw, n_extra=6) -> list:
 
 
 def examine(ctx, recipe, items) -> None:
-    rng = ctx.rng
     built = G.build(recipe)
     c = G.bind(built)
+    probe(ctx, built, c, {'recipe': recipe}, items)
+
+
+def examine_shared(ctx, recipe, shared, items) -> None:
+    """the convention of `recipe`, made on a dataset object that another convention was made on and used before"""
+    built, c = X.shared_pair(G, recipe, shared)
+    ctx.count(f"shared-dataset:{shared['mode']}:{built.conv}")
+    probe(ctx, built, c, {'recipe': recipe, 'shared': shared}, items, light=True)
+
+
+def probe(ctx, built, c, desc0, items, light=False) -> None:
+    """every point class against convention `c`, whose ground truth is `built`"""
+    rng = ctx.rng
+    recipe = built.recipe
     raw = built.polys
     vbits = S.geos_valid_bits(raw)
     kept = [q if (q is not None and vbits[n] == '1') else None for n, q in enumerate(raw)]
@@ -93,16 +114,18 @@ def examine(ctx, recipe, items) -> None:
                                'reaches-beyond-180W' if min(xs) < -180 else 'elsewhere'))
     if recipe.get('bounds') in ('overlap', 'gaps') or recipe.get('overlap_face'):
         ctx.count(f"cells:{recipe.get('bounds', 'overlap-face')}")
-    base = points_for(rng, kept, raw)
-    # + points on the boundary of one cell and inside another (overlapping cells), + other spellings of cell points
-    for (x, y, cls) in base + X.touch_inside_points(rng, kept) + X.alias_points(base):
+    base = points_for(rng, kept, raw, n_extra=3 if light else 6)
+    # + points on the boundary of one cell and inside another (overlapping cells), + other spellings of cell points,
+    # + points a hair (2^-30, 2^-40) off a vertex / an edge, to either side
+    more = X.touch_inside_points(rng, kept) + ([] if light else X.alias_points(base)) + X.hair_off_points(rng, kept)
+    for (x, y, cls) in base + more:
         x, y = Fraction(x), Fraction(y)
         # dyadic guard: only exactly representable points
         if Fraction(float(x)) != x or Fraction(float(y)) != y:
             continue
         pt = shapely.Point(float(x), float(y))
         ps = pt_str((x, y))
-        desc = {'recipe': recipe, 'point': [str(x), str(y)], 'class': cls}
+        desc = {**desc0, 'point': [str(x), str(y)], 'class': cls}
         raw_hits = [int(h) for h in tree.query(pt, predicate='intersects')]
         brute = [k for k, p in enumerate(polys) if p is not None and p.intersects(pt)]
         truth = [k for k, q in enumerate(kept) if q is not None and
@@ -133,7 +156,7 @@ def examine(ctx, recipe, items) -> None:
         # the same lookup fed with the spatial index's own (unsorted) report
         l2 = f"lookup {spec} {built.default_kind} {rings} {ps} {','.join(map(str, raw_hits)) or '-'}"
         items.append((l2, out, {**desc, 'op': l2}))
-        if len(truth) >= 2 or cls in ('hole', 'just-outside', 'far') or not truth:
+        if len(truth) >= 2 or cls in ('hole', 'just-outside', 'far') or not truth or cls.startswith('hair-off'):
             ctx.nontrivial((str(recipe), ps))
         ctx.count(f'class:{cls}:hits={min(len(truth), 3)}')
         # ---- the older entry point to the same index (`Convention.spatial_index`, deprecated but public): its
@@ -210,11 +233,35 @@ def make_recipe(ctx, k):
     return r
 
 
+def make_shared(ctx, k):
+    """-> (recipe, shared): the k-th history of two conventions on one dataset object.  Walked, not drawn: the
+    convention by k; `two-grids` on the even rounds of the conventions that take coordinate names, `replaced`
+    otherwise; which of the two grids is constructed and used first is drawn."""
+    rng = ctx.rng
+    conv = G.CONVS[k % len(G.CONVS)]
+    rnd = k // len(G.CONVS)
+    kw = {'max_w': 3, 'max_h': 2, 'coords_as': 'vars'} if conv == 'ugrid' else {'max_n': 4}
+    a = G.random_recipe(rng, conv, ctx.tier, **kw)
+    if conv in X.TWO_GRID_CONVS and rnd % 2 == 0:
+        b = X.second_grid_names(rng, G.random_recipe(rng, conv, ctx.tier, **kw))
+        mode = 'two-grids'
+    else:
+        unit = a.get('scale', 1)
+        b = X.place(a, unit * rng.choice([1, 2, -1, 12, -24]))
+        mode = 'replaced'
+    if mode == 'two-grids' and rng.random() < 0.5:
+        a, b = b, a
+    return b, {'mode': mode, 'first': a, 'warm': X.warm_points(G.build(a))}
+
+
 def run(ctx) -> None:
     items: list = []
     for k in range(ctx.budget(40, 400)):
         recipe = make_recipe(ctx, k)
         ctx.guarded(lambda: examine(ctx, recipe, items), {'recipe': recipe})
+    for k in range(ctx.budget(10, 60)):
+        recipe, shared = make_shared(ctx, k)
+        ctx.guarded(lambda: examine_shared(ctx, recipe, shared, items), {'recipe': recipe, 'shared': shared})
     if ctx.searching and ctx.driver is None:
         ctx.evaluated(len(items))
         return
@@ -225,8 +272,11 @@ def run_one(ctx, inp):
     out = {}
     if inp.get('op') and ctx.driver:
         out['model'] = ctx.model([inp['op']])[0]
-    built = G.build(inp['recipe'])
-    c = G.bind(built)
+    if inp.get('shared'):
+        built, c = X.shared_pair(G, inp['recipe'], inp['shared'])
+    else:
+        built = G.build(inp['recipe'])
+        c = G.bind(built)
     if 'point' in inp:
         x, y = (Fraction(v) for v in inp['point'])
         item = c.get_index_for_point(shapely.Point(float(x), float(y)))
